@@ -9,10 +9,12 @@ import (
 	"go/constant"
 	"go/token"
 	"go/types"
+	"io"
 	"os"
 	"path/filepath"
 	"sort"
 	"strings"
+	"sync"
 
 	"golang.org/x/tools/go/packages"
 	"golang.org/x/tools/go/ssa"
@@ -1310,11 +1312,7 @@ func cachedNormalize(dir, goarch string, tags []string) (map[string][]byte, []st
 	}
 	h := sha256.New()
 	fmt.Fprintf(h, "arch=%s\ntags=%v\n", goarch, tags)
-	if exe, err := os.Executable(); err == nil {
-		if st, err := os.Stat(exe); err == nil {
-			fmt.Fprintf(h, "exe=%s %d %d\n", exe, st.Size(), st.ModTime().UnixNano())
-		}
-	}
+	fmt.Fprintf(h, "exe=%s\n", exeIdentity())
 	ents, err := os.ReadDir(abs)
 	if err != nil {
 		return Normalize(dir, goarch, tags)
@@ -1506,4 +1504,34 @@ func (c *Ctx) literalArg(p *ssa.Parameter) ssa.Value {
 		}
 	}
 	return nil
+}
+
+var (
+	exeIDOnce sync.Once
+	exeID     string
+)
+
+// exeIdentity: a hash of this binary's contents (what the on-disk memories of normalisations and self-test verdicts are
+// keyed by: rebuilding the same sources gives the same identity, whatever the file's time stamp).
+func exeIdentity() string {
+	exeIDOnce.Do(func() {
+		exe, err := os.Executable()
+		if err != nil {
+			exeID = fmt.Sprintf("unknown-%d", os.Getpid())
+			return
+		}
+		f, err := os.Open(exe)
+		if err != nil {
+			exeID = fmt.Sprintf("unknown-%d", os.Getpid())
+			return
+		}
+		defer f.Close()
+		h := sha256.New()
+		if _, err := io.Copy(h, f); err != nil {
+			exeID = fmt.Sprintf("unknown-%d", os.Getpid())
+			return
+		}
+		exeID = fmt.Sprintf("%x", h.Sum(nil))
+	})
+	return exeID
 }
